@@ -277,6 +277,10 @@ func scPartial(kind string) func(x *vs.Exec) {
 			blocker = &msg.NewProxy{ProxyName: "blk", ProxyType: "tcpmux", Multiplexer: "httpconnect", CustomDomains: []string{"n.example.com"}}
 			victim = &msg.NewProxy{ProxyName: "v", ProxyType: "tcpmux", Multiplexer: "httpconnect", CustomDomains: []string{"m.example.com", "n.example.com"}}
 			retry = &msg.NewProxy{ProxyName: "v", ProxyType: "tcpmux", Multiplexer: "httpconnect", CustomDomains: []string{"m.example.com"}}
+		case "tcpmuxgroup-2nd-domain":
+			blocker = &msg.NewProxy{ProxyName: "blk", ProxyType: "tcpmux", Multiplexer: "httpconnect", CustomDomains: []string{"n.example.com"}}
+			victim = &msg.NewProxy{ProxyName: "v", ProxyType: "tcpmux", Multiplexer: "httpconnect", CustomDomains: []string{"m.example.com", "n.example.com"}, Group: "MG", GroupKey: "k"}
+			retry = &msg.NewProxy{ProxyName: "v", ProxyType: "tcpmux", Multiplexer: "httpconnect", CustomDomains: []string{"m.example.com"}, Group: "MG", GroupKey: "k"}
 		case "httpgroup-2nd-domain":
 			blocker = &msg.NewProxy{ProxyName: "blk", ProxyType: "http", CustomDomains: []string{"b.example.com"}}
 			victim = &msg.NewProxy{ProxyName: "v", ProxyType: "http", CustomDomains: []string{"a.example.com", "b.example.com"}, Group: "HG", GroupKey: "k"}
@@ -435,7 +439,7 @@ func main() {
 	for _, t := range []string{"tcp", "http", "stcp"} {
 		runs = append(runs, run{"term/" + t + "/hbtimeout", drv.Pick(c, 1, 1)})
 	}
-	for _, k := range []string{"http-2nd-domain", "http-2nd-location", "https-2nd-domain", "tcpmux-2nd-domain", "httpgroup-2nd-domain", "tcp-listen-fails", "tcpgroup-listen-fails", "udp-listen-fails", "name-taken", "port-taken", "udp-port-taken"} {
+	for _, k := range []string{"http-2nd-domain", "http-2nd-location", "https-2nd-domain", "tcpmux-2nd-domain", "httpgroup-2nd-domain", "tcpmuxgroup-2nd-domain", "tcp-listen-fails", "tcpgroup-listen-fails", "udp-listen-fails", "name-taken", "port-taken", "udp-port-taken"} {
 		runs = append(runs, run{"partial/" + k, drv.Pick(c, 1, 2)})
 	}
 	for _, k := range []string{"closenotify", "stats", "rwc", "rwcconn", "encryption", "compression"} {
